@@ -234,7 +234,8 @@ def sysLine (m : MState) (line : String) : MState :=
     let v := t.toNat?.getD m.sys.vnow
     { m with sys := { m.sys with vnow := v, ctime := max m.sys.ctime v } }
   | "prog" :: name :: rest =>
-    let d : ProgDecl := { name := name, save := kv rest "save" == "1", includes := csv (kv rest "inc"),
+    let d : ProgDecl := { name := name, save := kv rest "save" == "1", refuse := kv rest "refuse" == "1",
+                          includes := csv (kv rest "inc"),
                           inherits := csv (kv rest "inh") }
     { m with sys := { m.sys with decls := d :: m.sys.decls.filter (·.name != name) } }
   | "restart" :: fam =>
